@@ -30,7 +30,9 @@ def on_queued_placement(ctx):
     g = ctx.cfg(f)
     def N(name):
         return [n for c in own_calls(f.node) if (dotted(c.func) or '').split('.')[-1] == name for n in g.nodes_of(c)]
-    queued, running, submit, cb = N('set_status_to_queued'), N('set_status_to_running'), N('_submit'), N('on_queued_callback')
+    from .c03 import on_queued_calls
+    oq = on_queued_calls(ctx, f)
+    queued, running, submit, cb = N('set_status_to_queued'), N('set_status_to_running'), N('_submit'), [n for c in oq for n in g.nodes_of(c)]
     loops = [n for n in g.nodes if n.kind == 'for' and any(x.stmt is not None and x in cb for x in cb) and any(a is n.stmt for x in cb for a in _anc(x.ast))]
     ctx.ob(f, 'on_queued loop after set_status_to_queued()', bool(queued and cb) and g.all_dominate(queued, cb, g.NORMAL),
            'on_queued must not run for a transfer that was cancelled before starting (the transition raises)')
@@ -39,7 +41,8 @@ def on_queued_placement(ctx):
     ctx.ob(f, '_submit() after the on_queued loop and set_status_to_running()', bool(running and submit and loops)
            and g.all_dominate(running, submit, g.NORMAL) and g.all_dominate(loops, submit, g.NORMAL) and not (g.reach(submit, labels=g.NORMAL) & set(cb)),
            'no request may be issued before every on_queued ran (a size supplied there suppresses discovery)')
-    for c in [c for c in own_calls(f.node) if (dotted(c.func) or '') == 'on_queued_callback']:
+    ctx.ob(f, 'on_queued callbacks are invoked', bool(oq), 'on_queued subscribers never run')
+    for c in oq:
         loop = q.in_loop(c)
         ok = isinstance(loop, ast.For) and not q.guards(c)
         src = isinstance(loop, ast.For) and q.derives_from(f, loop.iter, lambda n: isinstance(n, ast.Call) and (dotted(n.func) or '').endswith('get_callbacks'))
